@@ -1,4 +1,131 @@
-import TR.Model.Circuit
+import TR.Lemmas.CircuitRefine
+/-!
+# C04 — the breaker trips and recovers exactly as its documented state machine
+
+`TR.Spec.Breaker` is the documented machine (40 lines: a view over the recorded outcomes).
+`TR.Circuit.Circuit` transcribes the code (incremental counters, an evicting deque, pruned
+time records, half-open bookkeeping, the lock-free mirror). The theorems say that the
+transcription refines the documented machine — per critical section for *every* reachable
+state (also under concurrency), and for whole sequential histories over
+{success, failure, slow success, slow failure, wait, force_open, force_closed, reset}.
+-/
 namespace TR.Props.C04
-theorem placeholder : 1 = 1 := rfl
+open TR TR.Circuit TR.Spec
+
+/-- **Refinement, whole sequential histories.** For every configuration (both window types,
+all sizes/durations, thresholds, minimum calls, permitted half-open calls, slow-call detection
+on/off — the classifier only decides the `fail` bit of each call) and every history, the
+abstraction of the transcribed circuit equals the documented machine run on the same history. -/
+theorem refines (cfg : Cfg) (acts : List Act) :
+    (abs (seqRun cfg acts).1, (seqRun cfg acts).2) = specRun cfg acts :=
+  seq_refines_from cfg acts _ (seq_init cfg)
+
+/-- **Refinement of `record_success` / `record_failure`** in every reachable state of the full
+model (any number of concurrent callers, cancellations, …): recording an outcome changes the
+abstract state exactly as the documented `record` does. -/
+theorem record_refines_reachable (cfg : Cfg) (ops : List Op) (fail : Bool) (dur : Nat) (own : Bool) :
+    abs (record cfg (run cfg ops).circ fail dur (run cfg ops).now own).1
+      = (abs (run cfg ops).circ).record cfg fail (isSlow cfg dur) (run cfg ops).now :=
+  record_refines cfg _ _ fail dur own (sinv_reachable cfg ops).circ (winv_reachable cfg ops)
+
+/-- The incrementally maintained aggregates (what `metrics()` reports and `evaluate_window`
+uses) always equal the counts over the count-based window. -/
+theorem counters_match_window (cfg : Cfg) (ops : List Op) :
+    let c := (run cfg ops).circ
+    c.failN = countFail c.cwin ∧ c.slowN = countSlow c.cwin ∧ c.totalN = c.cwin.length ∧
+    c.succN + countFail c.cwin = c.cwin.length :=
+  let h := (sinv_reachable cfg ops).circ
+  ⟨h.failN, h.slowN, h.totalN, h.succN⟩
+
+/-- Count-based: the window is exactly the last `sliding_window_size` outcomes recorded since it
+was last emptied — it *slides* (the pinned tree accumulated every call since the last transition). -/
+theorem count_window_is_last_size (cfg : Cfg) (ops : List Op) (h : cfg.countBased = true) :
+    (run cfg ops).circ.cwin = Circuit.lastN (max cfg.size 1) (run cfg ops).circ.hist :=
+  (winv_reachable cfg ops).count h
+
+/-- Time-based: after the pruning every record/evaluation starts with, the window is exactly
+the recorded outcomes no older than `sliding_window_duration`. -/
+theorem time_window_is_young (cfg : Cfg) (ops : List Op) (h : cfg.countBased = false) :
+    (cleanup cfg (run cfg ops).circ (run cfg ops).now).recs
+      = (run cfg ops).circ.hist.filter (fun r => decide ((run cfg ops).now - r.t ≤ cfg.windowMs)) :=
+  cleanup_eq_filter cfg _ _ h (winv_reachable cfg ops)
+
+/-- closed → open **exactly when** the documented condition holds over the documented window
+(at least `minimum_number_of_calls`, a full window if count-based, failure rate or enabled
+slow-call rate at its threshold); otherwise the outcome is just added to the window. -/
+theorem opens_exactly_when (cfg : Cfg) (b : Breaker) (fail slow : Bool) (now : Nat) (h : b.st = .closed) :
+    ((b.record cfg fail slow now).st = .opened ↔ (b.push ⟨now, fail, slow⟩).tripped cfg now = true) ∧
+    ((b.push ⟨now, fail, slow⟩).tripped cfg now = false → b.record cfg fail slow now = b.push ⟨now, fail, slow⟩) := by
+  have hne : ¬ (b.push ⟨now, fail, slow⟩).st = .halfOpen := by simp [Breaker.push, h]
+  have hc : (b.push ⟨now, fail, slow⟩).st = .closed := by simp [Breaker.push, h]
+  unfold Breaker.record
+  simp only [if_neg hne]
+  constructor
+  · constructor
+    · intro hst
+      by_cases ht : (b.push ⟨now, fail, slow⟩).tripped cfg now = true
+      · exact ht
+      · rw [if_neg ht, hc] at hst; cases hst
+    · intro ht
+      rw [if_pos ht]; simp [Breaker.goto, hc]
+  · intro ht; simp [ht]
+
+/-- open → half-open on the first call at or after `wait_duration_in_open`; before that every
+call is refused and nothing changes. -/
+theorem half_open_after_wait (cfg : Cfg) (b : Breaker) (now : Nat) (h : b.st = .opened) :
+    (now - b.since ≥ cfg.waitMs → (b.arrive cfg now).2 = true ∧ (b.arrive cfg now).1.st = .halfOpen ∧
+        (b.arrive cfg now).1.since = now) ∧
+    (now - b.since < cfg.waitMs → b.arrive cfg now = (b, false)) := by
+  unfold Breaker.arrive
+  simp only [h]
+  constructor
+  · intro hw; simp [hw, Breaker.goto, h]
+  · intro hw; have : ¬ now - b.since ≥ cfg.waitMs := by omega
+    simp [this]
+
+/-- half-open → closed on the success that completes `permitted_calls_in_half_open` successes … -/
+theorem closes_after_permitted (cfg : Cfg) (b : Breaker) (slow : Bool) (now : Nat) (h : b.st = .halfOpen) :
+    (b.succ + 1 ≥ cfg.permitted → (b.record cfg false slow now).st = .closed ∧ (b.record cfg false slow now).hist = []) ∧
+    (b.succ + 1 < cfg.permitted → (b.record cfg false slow now).st = .halfOpen ∧ (b.record cfg false slow now).succ = b.succ + 1) := by
+  have hh : (b.push ⟨now, false, slow⟩).st = .halfOpen := by simp [Breaker.push, h]
+  unfold Breaker.record
+  simp only [if_pos hh, Breaker.recordHalf, Bool.false_eq_true, if_false]
+  constructor
+  · intro hge
+    have : cfg.permitted ≤ b.succ + 1 := hge
+    simp [this, Breaker.goto, Breaker.push, h]
+  · intro hlt
+    have : ¬ cfg.permitted ≤ b.succ + 1 := by omega
+    simp [this, Breaker.push, h]
+
+/-- … and back to open on any failure. -/
+theorem reopens_on_failure (cfg : Cfg) (b : Breaker) (slow : Bool) (now : Nat) (h : b.st = .halfOpen) :
+    (b.record cfg true slow now).st = .opened ∧ (b.record cfg true slow now).since = now := by
+  have hh : (b.push ⟨now, true, slow⟩).st = .halfOpen := by simp [Breaker.push, h]
+  unfold Breaker.record
+  simp [if_pos hh, Breaker.recordHalf, Breaker.goto, Breaker.push, h]
+
+/-- `reset` returns the breaker to closed with an empty window, whatever state it was in
+(the pinned tree kept the counts when it was already closed). -/
+theorem reset_empties_window (cfg : Cfg) (ops : List Op) :
+    let c := (reset (run cfg ops).circ (run cfg ops).now).1
+    c.st = .closed ∧ c.cwin = [] ∧ c.recs = [] ∧ c.hist = [] ∧ stats cfg c = (0, 0, 0, 0) := by
+  simp only [reset]
+  refine ⟨transitionTo_st .., rfl, rfl, rfl, ?_⟩
+  simp [stats, clearWindow, countFail, countSlow]
+
+/-- The lock-free view (`state_sync`, `is_open`), the async view (`state`) and the metrics
+snapshot are the same function of the circuit: the mirror always equals the state. -/
+theorem views_agree (cfg : Cfg) (ops : List Op) : (run cfg ops).circ.mirror = (run cfg ops).circ.st :=
+  (sinv_reachable cfg ops).circ.mirror
+
+/-- Non-vacuity / the pinned-tree defect as a kernel-checked fact about the documented
+machine: window 4, four successes then two failures opens at the sixth call (the pinned tree
+opened only at the eighth), and the transcribed circuit agrees. -/
+example :
+    let cfg : Cfg := { size := 4, minCalls := 4, frNum := 1, frDen := 2 }
+    let h := [Act.call false 0, .call false 0, .call false 0, .call false 0, .call true 0]
+    (specRun cfg h).1.st = .closed ∧ (specRun cfg (h ++ [.call true 0])).1.st = .opened ∧
+    (seqRun cfg (h ++ [.call true 0])).1.st = .opened := by decide
+
 end TR.Props.C04
